@@ -23,7 +23,7 @@ ASSUMPTIONS = [
     "mutants that cannot be loaded, or whose first save raises, are outside 'for any loadable file X ... let Y be the bytes obtained' and are only counted",
 ]
 
-CVAL_VALUES = [-1, 0, 300, 70000, 2**31 - 1]
+CVAL_VALUES = [-1, 0, 300, 70000, 2**31 - 1, -129, -300, -70000, -2**31]
 
 
 # ----------------------------------------------------------------------------- mutants
@@ -36,6 +36,13 @@ def container_mutants(data, prefix=""):
             for v in CVAL_VALUES + [cur + 129]:
                 if v != cur:
                     yield f"{prefix}CVAL@{i}={v}", _subst(chunks, i, pack("<i", v))
+        elif cid == b"CMID" and i > 0 and chunks[i - 1][0] == b"CVAL":
+            # a file from a NEWER program: more stored controller values than this library knows for the type (two and
+            # three surplus values, not palindromic), with matching unset MIDI-map records
+            for extra in ([1, 2], [7], [3, 1, 2]):
+                new = list(chunks[:i]) + [(b"CVAL", pack("<i", v)) for v in extra] + \
+                    [(b"CMID", d + (b"\0" * 7 + b"\xff") * len(extra))] + list(chunks[i + 1:])
+                yield f"{prefix}extraCVAL@{i}x{len(extra)}", codec.build_chunks(new)
         elif cid in (b"SLNK", b"SLnK") and d:
             n = len(d) // 4
             vals = list(unpack("<" + "i" * n, d))
